@@ -182,9 +182,21 @@ func c03(c *Ctx) {
 	tb := ir.NewTB(c.P.IsRepoFunc, c.P.FuncKey)
 	tb.InlineMaxBlocks = 0
 
+	c.ruleRestore(tb, func(r string) string { return r })
+	c.R.Require("R-exit", 1)
+	c.R.Require("R-init", 1)
+
+	c.ruleReadback(tb)
+	c.ruleSignal(tb)
+}
+
+// ruleRestore holds R-record / R-exit / R-init (the fan is handed back on every exit of the control
+// goroutine and after a failed initialisation). rn maps the rule names (C09 reuses the rules under
+// its own names for its clause "... or stops regulating the fan after restoring it").
+func (c *Ctx) ruleRestore(tb *ir.TB, rn func(string) string) {
 	runs := c.ImplMethods(PkgCtrl, "FanController", "Run")
 	if len(runs) == 0 {
-		c.R.Undecided("R-exit", "no-impl", "FanController.Run", "-", "no implementation of FanController.Run found")
+		c.R.Undecided(rn("R-exit"), "no-impl", "FanController.Run", "-", "no implementation of FanController.Run found")
 		return
 	}
 	for _, run := range runs {
@@ -207,11 +219,11 @@ func c03(c *Ctx) {
 			}
 		})
 		if len(orig) == 0 {
-			c.R.Bad("R-record", c.FK(run), c.FK(run), c.P.Pos(run.Pos()), "Run does not record the fan's original control mode (GetPwmEnabled) in a controller field")
+			c.R.Bad(rn("R-record"), c.FK(run), c.FK(run), c.P.Pos(run.Pos()), "Run does not record the fan's original control mode (GetPwmEnabled) in a controller field")
 			continue
 		}
 		for f := range orig {
-			c.R.Ok("R-record", c.FK(run)+"|"+f, c.FK(run), c.P.Pos(run.Pos()), "original control mode recorded in field "+f)
+			c.R.Ok(rn("R-record"), c.FK(run)+"|"+f, c.FK(run), c.P.Pos(run.Pos()), "original control mode recorded in field "+f)
 		}
 		spec := c.restoreSpec(orig, tb)
 
@@ -219,7 +231,7 @@ func c03(c *Ctx) {
 		nctl := 0
 		for _, a := range groupActors(run) {
 			if a.execute == nil {
-				c.R.Undecided("R-exit", c.FK(run)+"|actor", c.FK(run), c.P.Pos(a.add.Pos()), "actor function value not resolvable")
+				c.R.Undecided(rn("R-exit"), c.FK(run)+"|actor", c.FK(run), c.P.Pos(a.add.Pos()), "actor function value not resolvable")
 				continue
 			}
 			if !c.reaches(a.execute, func(cc ssa.CallInstruction) bool { return isControllerCall(cc, "UpdateFanSpeed") }) {
@@ -238,13 +250,13 @@ func c03(c *Ctx) {
 			})
 			key := c.FK(run) + "|control-goroutine"
 			if len(badRet) > 0 {
-				c.R.Bad("R-exit", key, c.FK(a.execute), badRet[0], "the control goroutine can return ("+strings.Join(badRet, ", ")+") on a path that neither restored the recorded non-manual mode successfully nor requested PWM 255 last", c.explainRestore(ts, a.execute)...)
+				c.R.Bad(rn("R-exit"), key, c.FK(a.execute), badRet[0], "the control goroutine can return ("+strings.Join(badRet, ", ")+") on a path that neither restored the recorded non-manual mode successfully nor requested PWM 255 last", c.explainRestore(ts, a.execute)...)
 			} else {
-				c.R.Ok("R-exit", key, c.FK(a.execute), c.P.Pos(a.execute.Pos()), "every return of the control goroutine is in state 'restored' (mode switch-back confirmed or SetPwm(255))")
+				c.R.Ok(rn("R-exit"), key, c.FK(a.execute), c.P.Pos(a.execute.Pos()), "every return of the control goroutine is in state 'restored' (mode switch-back confirmed or SetPwm(255))")
 			}
 		}
 		if nctl == 0 {
-			c.R.Undecided("R-exit", c.FK(run)+"|control-goroutine", c.FK(run), c.P.Pos(run.Pos()), "no run.Group actor reaching UpdateFanSpeed found in Run (anchor unresolved)")
+			c.R.Undecided(rn("R-exit"), c.FK(run)+"|control-goroutine", c.FK(run), c.P.Pos(run.Pos()), "no run.Group actor reaching UpdateFanSpeed found in Run (anchor unresolved)")
 		}
 
 		// ---- R-init ---------------------------------------------------------
@@ -258,7 +270,7 @@ func c03(c *Ctx) {
 			key := c.FK(run) + "|after-failed-initialisation"
 			ev := errValueOfCall(call)
 			if ev == nil {
-				c.R.Bad("R-init", key, c.FK(run), c.P.Pos(call.Pos()), "the result of RunInitializationSequence is ignored")
+				c.R.Bad(rn("R-init"), key, c.FK(run), c.P.Pos(call.Pos()), "the result of RunInitializationSequence is ignored")
 				return
 			}
 			es := nilEdges(run, ev, true)
@@ -277,22 +289,17 @@ func c03(c *Ctx) {
 			}
 			rets := returnsFrom(edgeStarts(es), ir.Search{StopInstr: restores})
 			if len(es) == 0 {
-				c.R.Bad("R-init", key, c.FK(run), c.P.Pos(call.Pos()), "the error of RunInitializationSequence is never tested")
+				c.R.Bad(rn("R-init"), key, c.FK(run), c.P.Pos(call.Pos()), "the error of RunInitializationSequence is never tested")
 			} else if len(rets) > 0 {
-				c.R.Bad("R-init", key, c.FK(run), c.P.Pos(rets[0].ret.Pos()), "Run returns after a failed initialisation without passing through the restore routine")
+				c.R.Bad(rn("R-init"), key, c.FK(run), c.P.Pos(rets[0].ret.Pos()), "Run returns after a failed initialisation without passing through the restore routine")
 			} else {
-				c.R.Ok("R-init", key, c.FK(run), c.P.Pos(call.Pos()), "every return reachable from the error edge of RunInitializationSequence is preceded by a call that establishes 'restored'")
+				c.R.Ok(rn("R-init"), key, c.FK(run), c.P.Pos(call.Pos()), "every return reachable from the error edge of RunInitializationSequence is preceded by a call that establishes 'restored'")
 			}
 		})
 		if ninit == 0 {
-			c.R.Ok("R-init", c.FK(run)+"|no-initialisation-call", c.FK(run), c.P.Pos(run.Pos()), "Run does not call RunInitializationSequence")
+			c.R.Ok(rn("R-init"), c.FK(run)+"|no-initialisation-call", c.FK(run), c.P.Pos(run.Pos()), "Run does not call RunInitializationSequence")
 		}
 	}
-	c.R.Require("R-exit", 1)
-	c.R.Require("R-init", 1)
-
-	c.ruleReadback(tb)
-	c.ruleSignal(tb)
 }
 
 // explainRestore lists, for diagnosis, the repository callees of fn whose summary does not guarantee 'restored'.
